@@ -389,7 +389,9 @@ func runResCase(c *ResCase) {
 	}
 	setBool := func(b bool) { obs.Kind, obs.B = "bool", b }
 	setInt := func(i int64) { obs.Kind, obs.I = "int", i }
-	setFlt := func(f float64) { obs.Kind, obs.F, obs.FText = "flt", resFloatBits(f), strconv.FormatFloat(f, 'g', -1, 64) }
+	setFlt := func(f float64) {
+		obs.Kind, obs.F, obs.FText = "flt", resFloatBits(f), strconv.FormatFloat(f, 'g', -1, 64)
+	}
 	func() {
 		defer func() {
 			if e := recover(); e != nil {
@@ -620,6 +622,10 @@ func resEngine(o *Opts) {
 		readJSON(o.Replay, &all)
 	} else {
 		all.Cases = resGenerate(rng.Fork(), o.N, o.Tier)
+		if o.Tier == "thorough" && o.Shard == 1 {
+			// deterministic sweep of the UTF-8 decoder / White_Space table behind strings.TrimSpace
+			all.Cases = resExhaustiveTrim()
+		}
 	}
 	shuffle := NewRng(o.Seed ^ 0x5eed)
 	terms := make([]string, len(all.Cases))
@@ -662,6 +668,9 @@ func resEngine(o *Opts) {
 	writeFile(base+".v", b.String())
 	writeJSON(base+".json", all)
 	st.CasesFile, st.CasesJSON = base+".v", base+".json"
+	if st.Samples == nil {
+		st.Samples = []any{} // the driver indexes the list: never null
+	}
 	st.Write(base + ".stats.json")
 }
 
